@@ -40,8 +40,9 @@
 #include "lax_der_parsing.c"
 
 /* ---------------------------------------------------------------- alloc tracking */
-static int g_track = 0;
-static long g_mallocs = 0, g_live = 0;
+#define TLS __thread
+static TLS int g_track = 0;
+static TLS long g_mallocs = 0, g_live = 0;
 #ifndef VSHIM_NO_WRAP
 void *__real_malloc(size_t);
 void __real_free(void *);
@@ -55,8 +56,8 @@ void __wrap_free(void *p) { if (g_track && p) g_live--; __real_free(p); }
 #define CALL(stmt) do { g_track = 1; stmt; g_track = 0; } while (0)
 
 /* ---------------------------------------------------------------- callbacks */
-static long g_ill = 0, g_err = 0;
-static char g_ill_msg[160];
+static TLS long g_ill = 0, g_err = 0;
+static TLS char g_ill_msg[160];
 static void cb_ill(const char *s, void *d) { (void)d; g_ill++; strncpy(g_ill_msg, s ? s : "", sizeof(g_ill_msg) - 1); }
 static void cb_err(const char *s, void *d) { (void)d; g_err++; strncpy(g_ill_msg, s ? s : "", sizeof(g_ill_msg) - 1); }
 
@@ -64,7 +65,7 @@ static void cb_err(const char *s, void *d) { (void)d; g_err++; strncpy(g_ill_msg
 #define NCTX 16
 static secp256k1_context *g_ctx[NCTX];
 static void *g_ctx_mem[NCTX];   /* non-NULL: preallocated memory owned by the shim */
-static secp256k1_context *ctx; /* current */
+static TLS secp256k1_context *ctx; /* current */
 static void ctx_install(secp256k1_context *c) {
     secp256k1_context_set_illegal_callback(c, cb_ill, NULL);
     secp256k1_context_set_error_callback(c, cb_err, NULL);
@@ -72,12 +73,13 @@ static void ctx_install(secp256k1_context *c) {
 
 /* ---------------------------------------------------------------- argument access */
 #define MAXTOK 4096
-static char *g_tok[MAXTOK];
-static int g_ntok;
-static void *g_tmp[MAXTOK * 2];
-static int g_ntmp;
-static char *g_out; static size_t g_outlen, g_outcap;
-static int g_bad; static char g_badmsg[200];
+static TLS char *g_tok[MAXTOK];
+static TLS int g_ntok;
+static TLS void *g_tmp[MAXTOK * 2];
+static TLS int g_ntmp;
+static TLS char *g_out; static TLS size_t g_outlen, g_outcap;
+static TLS int g_bad; static TLS char g_badmsg[200];
+static TLS char *g_reply; static TLS size_t g_replycap;
 
 static void bad(const char *m, int i) { if (!g_bad) { g_bad = 1; snprintf(g_badmsg, sizeof g_badmsg, "%s (arg %d)", m, i); } }
 static void *keep(void *p) { if (g_ntmp < MAXTOK * 2) g_tmp[g_ntmp++] = p; return p; }
@@ -163,10 +165,15 @@ static const opent OPS[] = {
     { NULL, NULL }
 };
 
-static const char *g_lastline;
 static void on_alarm(int sig) { (void)sig; { static const char m[] = "TIMEOUT\n"; if (write(1, m, sizeof m - 1)) {} } _exit(3); }
 
-int vshim_exec_line(char *line) {
+static void reply(const char *fmt, const char *a, long i1, long i2, long i3, long i4) {
+    size_t need = (g_out ? g_outlen : 0) + strlen(a) + 160;
+    if (need > g_replycap) { g_replycap = need * 2; g_reply = (char *)realloc(g_reply, g_replycap); }
+    snprintf(g_reply, g_replycap, fmt, a, i1, i2, i3, i4);
+}
+/* executes one command line; the reply (without newline) is left in g_reply. use_static: run with secp256k1_context_static */
+static void vshim_exec_line(char *line, int use_static) {
     int i; const opent *o; char *p = line; long ill0, err0, m0, l0;
     g_ntok = 0; g_ntmp = 0; g_outlen = 0; g_bad = 0; if (g_out) g_out[0] = 0;
     while (*p) {
@@ -175,42 +182,44 @@ int vshim_exec_line(char *line) {
         if (g_ntok < MAXTOK) g_tok[g_ntok++] = p;
         while (*p && *p != ' ' && *p != '\t' && *p != '\n' && *p != '\r') p++;
     }
-    if (g_ntok == 0) return 0;
+    if (g_ntok == 0) { reply("ERR empty%s", "", 0, 0, 0, 0); return; }
     ctx = g_ctx[0];
     if (g_tok[0][0] == '@') {
         int k = atoi(g_tok[0] + 1);
-        if (k < 0 || k >= NCTX || !g_ctx[k]) { printf("ERR no such context\n"); return 0; }
+        if (k < 0 || k >= NCTX || !g_ctx[k]) { reply("ERR no such context%s", "", 0, 0, 0, 0); return; }
         ctx = g_ctx[k];
         for (i = 1; i < g_ntok; i++) g_tok[i - 1] = g_tok[i];
         g_ntok--;
-        if (g_ntok == 0) { printf("ERR empty\n"); return 0; }
+        if (g_ntok == 0) { reply("ERR empty%s", "", 0, 0, 0, 0); return; }
     }
+    if (use_static) ctx = (secp256k1_context *)secp256k1_context_static;
     for (o = OPS; o->name; o++) if (strcmp(o->name, g_tok[0]) == 0) break;
-    if (!o->name) { printf("ERR unknown op %s\n", g_tok[0]); return 0; }
+    if (!o->name) { reply("ERR unknown op %s", g_tok[0], 0, 0, 0, 0); return; }
     for (i = 1; i < g_ntok; i++) g_tok[i - 1] = g_tok[i];
     g_ntok--;
     ill0 = g_ill; err0 = g_err; m0 = g_mallocs; l0 = g_live; g_ill_msg[0] = 0;
-    alarm(60);
     o->fn();
-    alarm(0);
     for (i = 0; i < g_ntmp; i++) free(g_tmp[i]);
     g_ntmp = 0;
-    if (g_bad) { printf("ERR %s\n", g_badmsg); return 0; }
-    printf("ok%s | ill=%ld err=%ld m=%ld live=%ld\n", g_out ? g_out : "", g_ill - ill0, g_err - err0, g_mallocs - m0, g_live - l0);
-    return 0;
+    if (g_bad) { reply("ERR %s", g_badmsg, 0, 0, 0, 0); return; }
+    reply("ok%s | ill=%ld err=%ld m=%ld live=%ld", g_out ? g_out : "", g_ill - ill0, g_err - err0, g_mallocs - m0, g_live - l0);
 }
+
+#include "vshim_modes.h"
 
 #ifndef VSHIM_NO_MAIN
 int main(int argc, char **argv) {
     char *line = NULL; size_t cap = 0; ssize_t n;
-    (void)argc; (void)argv;
     signal(SIGALRM, on_alarm);
     setvbuf(stdout, NULL, _IOFBF, 1 << 16);
     CALL(g_ctx[0] = secp256k1_context_create(SECP256K1_CONTEXT_NONE));
     ctx_install(g_ctx[0]);
     g_mallocs = 0; g_live = 0;
+    if (argc > 1 && strcmp(argv[1], "--threads") == 0) return threads_main(argc, argv);
     while ((n = getline(&line, &cap, stdin)) > 0) {
-        vshim_exec_line(line);
+        if (strncmp(line, "fork_static ", 12) == 0) { fork_static(line + 12); }
+        else { alarm(60); vshim_exec_line(line, 0); alarm(0); }
+        fputs(g_reply, stdout); fputc('\n', stdout);
         fflush(stdout);
     }
     return 0;
